@@ -22,6 +22,7 @@ ASSUMPTIONS = ["composed routing over all broker states, slots and phases is beh
 TRUSTED = []
 
 MUTANTS = [
+    {"name": "source-redirects-in-preswitch", "file": "src/migration/scan_task.rs", "old": "            MigrationState::PreBlocking | MigrationState::PreSwitch => {", "new": "            MigrationState::PreBlocking => {", "expect": "C02.D4:C03.D5:migrating:PreSwitch"},
     {"name": "proxy-local-peer-swapped", "edits": [
         {"file": "src/proxy/cluster.rs", "old": "        let slot_ranges = cluster_meta.get_local().clone();", "new": "        let slot_ranges = cluster_meta.get_peer().clone();"},
         {"file": "src/proxy/cluster.rs", "old": "        let peer_slot_ranges = cluster_meta.get_peer().clone();", "new": "        let peer_slot_ranges = cluster_meta.get_local().clone();"}],
@@ -78,6 +79,13 @@ def run(ctx):
     from ..engine import AliasCtx
     from . import C09 as _c09
     _c09.run(AliasCtx(ctx, "C02.D6", only={"C09.D5", "C09.D6", "C09.D7"}))
+    # who executes in which handshake state: the two proxies change state at different moments (the destination is still in
+    # PreCheck while the source is already in PreSwitch), so the source's table is checked state by state against the
+    # handshake, not only against the destination's entry for the same state; and a command routed to the local node
+    # under a stale "not blocking" hint must be re-routed once the blocking term has moved on (C11's decision table)
+    from . import C03 as _c03, C11 as _c11
+    _c03._phases(AliasCtx(ctx, "C02.D4", only={"C03.D5"}))
+    _c11._send(AliasCtx(ctx, "C02.D4", only={"C11.D4"}))
 
 
 def _filter_closure_table(ctx, F, c, address_cap="address"):
